@@ -18,6 +18,8 @@ structure St where
   groups : List (String × Loc) := []
   out : List String := []
   fix : Bool := false
+  copyHyps : String := ""    -- per `copy`: do the hypotheses of copy_fresh / copy_observationally_equal hold? (T/F)
+  opLocal : String := ""     -- per `op`: are its steps local (frame theorem applies)? (T/F)
 
 def classDescs (st : St) : List ClassDesc := st.classes.map (·.2)
 
@@ -181,11 +183,14 @@ def exec (st : St) (j : Json) : R St := do
     pure (setRoot { st with heap := st.heap ++ [⟨.dict, es⟩] } (← str j "r") st.heap.length)
   | "copy" =>
     match copyRoot st.fix (classDescs st) st.heap (← rootLoc st (← str j "of")) with
-    | some (h, l) => pure (setRoot { st with heap := h } (← str j "r") l)
+    | some (h, l) =>
+      let flag := if worldOK2B (classDescs st) st.heap then "T" else "F"
+      pure (setRoot { st with heap := h, copyHyps := st.copyHyps ++ flag } (← str j "r") l)
     | none => throw "copy: out of fuel or dangling reference"
   | "op" =>
     let op ← parseOp st 4 (← obj j "op")
-    pure { st with heap := applyOp st.heap (← rootLoc st (← str j "r")) op }
+    let flag := if stepsLocal (opSteps op) then "T" else "F"
+    pure { st with heap := applyOp st.heap (← rootLoc st (← str j "r")) op, opLocal := st.opLocal ++ flag }
   | "sub" =>   -- bind a root name to linker.submodels[key]
     match nav st.heap (← rootLoc st (← str j "of")) ["submodels", ← str j "key"] with
     | some l => pure (setRoot st (← str j "r") l)
@@ -195,12 +200,12 @@ def exec (st : St) (j : Json) : R St := do
     pure { st with out := st.out ++ [s] }
   | _ => throw s!"bad command {c}"
 
-/-- kind `heap_prog`: `{prog: [...]}` → snapshots joined by `#`. -/
+/-- kind `heap_prog`: `{prog: [...]}` → snapshots joined by `#`, then `%`-separated the per-copy and per-op hypothesis flags. -/
 def handleProg (j : Json) : R String := do
   let mut st : St := {}
   for c in (← arr j "prog") do
     st ← exec st c
-  pure (joinWith "#" st.out)
+  pure (joinWith "#" st.out ++ "%" ++ st.copyHyps ++ "%" ++ st.opLocal)
 
 def handlers : List (String × (Lean.Json → Except String String)) :=
   [("heap_prog", handleProg)]
